@@ -17,6 +17,7 @@ RULE = ("streams of 1..4 valid messages (whole grammar, library spelling and for
 ASSUMPTIONS = ["only elements no longer than the threshold are generated when a threshold is set",
                "comments / CDATA / DOCTYPE are outside the quantifier"]
 REQUIRED_EVENTS = ["process_calls", "deliveries", "cuts_inside_message", "threshold_disabled_runs"]
+QUICK_SHARDS = 4
 EXHAUSTIVE_NOTE = "1-cut partitions of every stream are complete in both tiers; 2-/3-cut partitions of the short corpus are complete in the thorough tier"
 
 
@@ -205,13 +206,16 @@ def run(ctx):
 
 def _run(ctx):
     if not ctx.thorough:
-        for i in range(22):
-            run_stream(ctx, i, short=False, big=False, plan=quick_plan)
-        for i in range(40, 46):
-            run_stream(ctx, i, short=False, big=True, plan=big_plan)
+        for i in range(64):
+            if ctx.mine(i):
+                run_stream(ctx, i, short=False, big=False, plan=quick_plan)
+        for i in range(100, 116):
+            if ctx.mine(i):
+                run_stream(ctx, i, short=False, big=True, plan=big_plan)
         # complete 2-cut enumeration of a few very short streams
-        for i in range(100, 104):
-            run_exhaustive(ctx, i, 2, maxlen=90)
+        for i in range(200, 212):
+            if ctx.mine(i):
+                run_exhaustive(ctx, i, 2, maxlen=90)
         return
     for i in range(400):
         if ctx.mine(i):
